@@ -494,7 +494,12 @@ def _hoist_verdict(st, fx):
 
 # --------------------------------------------------------------------- driver
 def _block(stmts, fx, occ, top=False):
-    stmts = list(stmts)
+    # tuple assignments are split first so that a loop counter initialised in one (`flag, i = False, 0`) is visible
+    pre = []
+    for st in stmts:
+        r = _split_tuple(st)
+        pre.extend(r if r is not None else [st])
+    stmts = pre
     k = 0
     while k < len(stmts):
         if isinstance(stmts[k], ast.While):
